@@ -1307,6 +1307,11 @@ fn gen_scenario(seed: u64) -> Scenario {
             };
         }
     }
+    // (a lone job is only meaningful when it is a live session, which brings its own second thread)
+    if jobs.len() < 2 && jobs.iter().all(|j| j.live.is_none()) {
+        let twin = jobs[0].clone();
+        jobs.push(twin);
+    }
     Scenario {
         prop: "C19".into(),
         seed,
